@@ -1420,6 +1420,7 @@ class Engine:
             return p.errno_addr
         if n in ('vf_yield', 'vf_usleep', 'sched_yield', 'usleep'): return 0
         if n == 'sysconf': return 4096
+        if n == '_ZNSt3pmr19new_delete_resourceEv': return 0x7100      # opaque default upstream (harnesses install their own)
         if n in ('pthread_mutex_lock', 'pthread_mutex_trylock'):
             # a mutex is a lock word: acquire-RMW 0 -> 1; executions in which the lock is held at that moment are excluded
             # (blocking is a scheduling constraint; critical sections are finite). Deadlock on mutexes is outside the claim.
